@@ -198,7 +198,7 @@ func (d *dir) deliver(seg []byte) {
 	if len(d.avail) > 0 {
 		fCoalesced.Hit()
 	}
-	d.avail = append(d.avail, seg...)
+	d.avail = bappend(d.avail, seg)
 	d.inflight -= len(seg)
 	d.pendingSegs--
 	d.wake(&d.readers)
@@ -247,7 +247,7 @@ func (c *Conn) Read(p []byte) (int, error) {
 			if n < len(p) && n < len(d.avail) {
 				fShortRead.Hit()
 			}
-			copy(p, d.avail[:n])
+			bcopy(p, d.avail[:n])
 			d.avail = d.avail[n:]
 			if len(d.avail) == 0 {
 				d.avail = nil
@@ -344,8 +344,8 @@ func (c *Conn) Write(p []byte) (int, error) {
 		}
 		if n > 0 {
 			seg := make([]byte, n)
-			copy(seg, p[done:done+n])
-			d.tap = append(d.tap, seg...)
+			bcopy(seg, p[done:done+n])
+			d.tap = bappend(d.tap, seg)
 			d.written += int64(n)
 			d.inflight += n
 			d.pendingSegs++
